@@ -109,6 +109,25 @@ CHECKS = {
             "DESIGN.md section 4 C18"),
 }
 
+# what later rounds added to each check (appended to the level text)
+ADDENDA = {
+    "C01": "Round 8: the same identity on the six non-shear components as the real task list assembles them from axial strains given as ones, fractions, or rows times positive factors; twin cases share the strain fractions of their base.",
+    "C02": "Round 8: the gap on the components assembled by the real task list (unnormalised strains); twin cases share the strain fractions of their base.",
+    "C03": "Round 8: strain fields with as many volumes as axes (and 1, 2, 4, 6).",
+    "C04": "Round 8: whole-number strains in an integer-typed array; a used task list resolved again with another strain field.",
+    "C05": "Round 8: data sets written over the files of the previous one (same paths, same process); static rows and lattice block ascending or shuffled.",
+    "C06": "Round 8: the pressure axis of the pressure base is the requested grid of the settings (decimal steps, column counts at which a naive arange overshoots).",
+    "C07": "Round 8: shear-shear coupling without normal-shear coupling; isothermal constants read by attribute before any average.",
+    "C08": "Round 8: one settings dictionary applied to several tables; drop tolerance raised to a noise level with a component below it at one volume only.",
+    "C10": "Round 8: every accepted string spelling of the oracle table as the package's own consumers read it (static-table column labels, attribute names).",
+    "C12": "Round 8: a listed component that vanishes identically.",
+    "C14": "Round 8: the same files calculated under two settings in one process (Construct(i, c, v) in Lifecycle.tla), `cij run` / `cij fill` as actions (Cli), the fill output under every hash seed, a table whose filling appends several columns.",
+    "C15": "Round 8: which tensor a keyword selects is decided against calculations of the same files that have read nothing else.",
+    "C17": "Round 8: the fill round trip takes the symmetry-filled parse from the C08 export (integer combinations of the invariant basis: one-signed components touching zero, sufficient proper subsets), not from the package.",
+    "C18": "Round 8: invocations on the files of the previous one, rewritten in place.",
+    "C19": "Round 8: a geotherm file written in whole numbers.",
+}
+
 NOT_YET = {
 }
 
@@ -123,7 +142,7 @@ def main():
             "evidence_file": f"/verif/evidence/{pid}.json",
             "replay_cmd_template": f"./check {pid} --replay {{path}}",
             "engine": "tlc+harness",
-            "level_claimed": {"category": cat, "text": text, "design_ref": ref},
+            "level_claimed": {"category": cat, "text": (text + " " + ADDENDA[pid]) if pid in ADDENDA else text, "design_ref": ref},
             "level_note": note,
             "technique": tech,
         })
